@@ -1,7 +1,7 @@
 (* C16 - the splice table regenerated from /repo (VerifGen.K10) satisfies site_ok, and what
    that means together with the string-literal theorem. *)
 From Coq Require Import List String Ascii NArith Bool.
-From Verif Require Import PyStrLit PyStrLitProofs PyLit PyLitProofs Splice DefaultLit DefaultLitProofs.
+From Verif Require Import PyStrLit PyStrLitProofs PyLit PyLitProofs PyLine PyLineProofs Splice DefaultLit DefaultLitProofs.
 From VerifGen Require Import K10.
 Import ListNotations.
 Open Scope string_scope.
@@ -113,3 +113,25 @@ Theorem default_literal v : dwf default_literal_branches v = true ->
     forall p rest, oracle_ok p -> ends_token rest = true ->
       eval_lit (render_lit p l ++ rest) = Some (l, rest).
 Proof. apply shape_sound. exact default_branches_safe. Qed.
+
+(* round 4: the site seen from the whole LINE.  Reading the generated line template of a site from
+   its start (whatever was emitted before: [acc], [prev]), the tokenizer passes the before-text
+   character by character, then reads exactly ONE string token whose value is the data string, and
+   continues in default state with the after-text *)
+Theorem site_line st :
+  In st splice_sites -> s_kind st = KRepr \/ s_kind st = KAscii ->
+  forall p d rest prev acc, oracle_ok p -> wf_str d ->
+  tok_line (LDef prev) acc (codes (s_before st) ++ site_text (s_kind st) p d ++ codes (s_after st) ++ rest)
+  = tok_line (LDef false) (TkStr d :: rev (map TkChar (codes (s_before st))) ++ acc) (codes (s_after st) ++ rest).
+Proof.
+  intros Hin Hk p d rest prev acc Hp Hw.
+  pose proof (proj1 (forallb_forall _ _) sites_ok st Hin) as Hok.
+  unfold site_ok in Hok. apply andb_true_iff in Hok. destruct Hok as [Hok _].
+  apply andb_true_iff in Hok. destruct Hok as [Hok _].
+  apply andb_true_iff in Hok. destruct Hok as [Hok Ha].
+  apply andb_true_iff in Hok. destruct Hok as [_ Hb].
+  pose proof (after_ok_ctx _ rest Ha) as Hc.
+  destruct Hk as [E|E]; rewrite E; cbn [site_text].
+  - apply line_literal; assumption.
+  - apply line_literal; [intros c _; reflexivity | assumption ..].
+Qed.
